@@ -170,7 +170,7 @@ func (f *Subseq) getArgs(s *slip.Scope, args slip.List, depth int) (start, end i
 		}
 		seq = ta
 	case *slip.Vector:
-		size := ta.Length()
+		size := len(ta.AsList()) // the elements in front of the fill pointer
 		if end < 0 {
 			end = size
 		}
